@@ -82,7 +82,7 @@ def gen_cases(chk, distinct, stats):
         return {"a": "days", "y": y, "sod": sod, "fmt": fmt, "full": full, "days": ds}
 
     # 1. every day of the date system (the displayed text costs ~0.8 ms per item: quick displays every day
-    #    of 160 selected years, thorough every day of the date system)
+    #    of 160 selected years, thorough every day of those and of every third year)
     # 2. the edges of every year, displayed: Jan 1, Feb 28, (Feb 29), Mar 1, Dec 31
     rot = BOUNDARY_SODS + [rng.randrange(86400), rng.randrange(86400)]     # 7 entries: coprime with 4/100/400
     sel = set(range(1900, 1905)) | {1999, 2000, 2001, 2023, 2024, 2038, 2099, 2100, 2101, 2399, 2400, 9998, 9999}
@@ -95,7 +95,7 @@ def gen_cases(chk, distinct, stats):
             r = rng.randrange(86400)
             for sod in (0, 43200, 86399):
                 yield days_case(y, sod, False)
-            yield days_case(y, r if r not in (0, 43200, 86399) else 12345, True)
+            yield days_case(y, r if r not in (0, 43200, 86399) else 12345, y % 3 == 0 or y in sel)
         else:
             yield days_case(y, rot[y % 7], False)
             if y in sel:
@@ -297,7 +297,8 @@ def run(chk):
         "'gives the value defined by the date system' is read for a binary double as: integer part = day number "
         "exactly, fraction within 2^-13 s (0.12 ms; 3 ulp of the largest serial) of seconds/86400",
         "the displayed text is checked for the number format 'yyyy-mm-dd hh:mm:ss' only (quick: every day of 160 "
-        "selected years, the edge days of every year, 1/12 of the seconds; thorough: every day)",
+        "selected years, the edge days of every year, 1/12 of the seconds; thorough: every day of every third "
+        "year as well, 1/3 of the seconds)",
     ]
 
 
